@@ -33,10 +33,16 @@ def main():
             print(f'old text occurs {s.count(old)} times in {f} (must be exactly once)')
             return 2
         open(p, 'w').write(s.replace(old, new))
-        r = subprocess.run([os.path.join(VERIF, 'check')] + props,
-                           env=dict(os.environ, SA_REPO_ROOT=d, SA_EVIDENCE_DIR=os.path.join(d, 'ev')),
-                           capture_output=True, text=True)
-        out = [l for l in (r.stdout + r.stderr).splitlines() if 'violated' in l or 'ANALYSIS-ERROR' in l]
+        out = []
+        for prop in props:  # ./check takes one property per invocation
+            r = subprocess.run([os.path.join(VERIF, 'check'), prop],
+                               env=dict(os.environ, SA_REPO_ROOT=d, SA_EVIDENCE_DIR=os.path.join(d, 'ev')),
+                               capture_output=True, text=True)
+            lines = (r.stdout + r.stderr).splitlines()
+            if r.returncode not in (0, 1) and not any('ANALYSIS-ERROR' in l for l in lines):
+                print(f'check {prop} did not run (exit {r.returncode}):', *lines[-3:], sep='\n   ')
+                return 2
+            out += [l for l in lines if 'violated' in l or 'ANALYSIS-ERROR' in l]
         print('silent' if not out else f'{len(out)} report line(s):')
         for l in out[:8]:
             print('  ', l.strip()[:300])
